@@ -265,7 +265,7 @@ func c04Run(c Case) (Result, error) {
 		fail("pk(agg sk) != agg(pks)")
 	}
 	// ... also when the input private keys are fresh objects whose public keys were never / partly computed
-	for _, mask := range []int{0, 0x55555555} {
+	for _, mask := range []int{0, 0x55555555, 0x2aaaaaaa, 1 << (uint(len(in.Scalars)-1) % 31), 0x7fffffff &^ 1, 1} {
 		var fresh []crypto.PrivateKey
 		for i, s := range in.Scalars {
 			var sk crypto.PrivateKey
